@@ -136,6 +136,18 @@ def _body_insensitive(body, setnames, setattrs, dictsets):
     return True
 
 
+def parameter_writes(repo, rel):
+    """statements in `rel` that write into a `<obj>.parameters` mapping (the caller-visible configuration of a Context)"""
+    out = []
+    for n in ast.walk(repo.tree(rel)):
+        if isinstance(n, ast.Subscript) and isinstance(n.ctx, (ast.Store, ast.Del)) and (dotted(n.value) or "").endswith(".parameters"):
+            out.append(n)
+        elif isinstance(n, ast.Call) and isinstance(n.func, ast.Attribute) and n.func.attr in ("setdefault", "update", "pop", "popitem", "clear", "__setitem__") \
+                and (dotted(n.func.value) or "").endswith(".parameters"):
+            out.append(n)
+    return out
+
+
 def run(repo, tier):
     r = Report("C09", tier, repo, level="other", design_ref="§3/C09")
     r.explanation = (
@@ -152,6 +164,7 @@ def run(repo, tier):
     r.rule("R9.3", "no ordering or sort key is computed from id() or hash()", floor=1)
     r.rule("R9.5", "containers cached in the caller's parameters mapping are keyed context-uniquely (Type.__eq__ compares the context by identity)", floor=2)
     r.rule("R9.6", "names generated from the raw bytes of a numpy scalar use only the value-carrying bytes (no padding of unspecified content)", floor=1)
+    r.rule("R9.7", "no one-shot iterator (map/zip/filter/iter/generator expression/itertools.*) bound at module or class level is traversed inside a function", floor=1)
     r.rule("R9.4", "memoisation (lru_cache/cache) of a function that dispatches on the type of its argument is typed", floor=2)
 
     files = [f for f in repo.py_files() if in_scope(f)]
@@ -367,6 +380,64 @@ def run(repo, tier):
              "one and the emitted text depends on what was generated before", loc(rel, n))
     if len(caches) < 2:
         raise AnalysisError(f"R9.5: only {len(caches)} parameter-mapping caches recognised in context.py (expected dtype_index_cache, same_dtype_cache)")
+
+    # the parameters mapping is configuration: outside Context itself nothing writes to it (a default written while one function is
+    # traced is read by the next function traced on the same context, or on any context given the same mapping)
+    n_pw = 0
+    for rel in files:
+        if rel == "context.py":
+            continue
+        for n in parameter_writes(repo, rel):
+            n_pw += 1
+            r.ob("R9.5", f"{rel}::{enclosing_function(n)} writes into the parameters mapping", False,
+                 f"`{norm_src(n)[:100]}` stores a value in the context's parameters while tracing: later traces on the same context (or on any context "
+                 "given the same mapping) read it, so their result depends on what was traced before", loc(rel, n))
+    r.ob("R9.5", "only context.py writes into a parameters mapping", n_pw == 0, "", loc("context.py", repo.tree("context.py")))
+
+    # ------------------------------------------------------------------ R9.7 one-shot iterators at module / class level
+    # map(), zip(), filter(), iter(), reversed(), enumerate(), a generator expression and the itertools constructors return
+    # iterators that are consumed by their first traversal; bound at module or class level and traversed inside a function, the
+    # first call of the process sees the items and every later call sees none: behaviour depends on what ran before.
+    ONE_SHOT = {"map", "zip", "filter", "iter", "reversed", "enumerate"}
+    n97 = 0
+    for rel in files:
+        tree = repo.tree(rel)
+        scopes = [(tree, "module")] + [(c, f"class {c.name}") for c in ast.walk(tree) if isinstance(c, ast.ClassDef)]
+        it_mods, it_names = {"itertools"}, set()
+        for imp in ast.walk(tree):
+            if isinstance(imp, ast.Import):
+                it_mods |= {a.asname or a.name for a in imp.names if a.name == "itertools"}
+            elif isinstance(imp, ast.ImportFrom) and imp.module == "itertools":
+                it_names |= {a.asname or a.name for a in imp.names}
+        for scope, sname in scopes:
+            for st in scope.body:
+                if not (isinstance(st, ast.Assign) and len(st.targets) == 1 and isinstance(st.targets[0], ast.Name)):
+                    continue
+                v = st.value
+                fn = dotted(v.func) if isinstance(v, ast.Call) else None
+                one_shot = isinstance(v, ast.GeneratorExp) or (fn is not None and (fn in ONE_SHOT or fn in it_names or fn.split(".")[0] in it_mods and "." in fn))
+                if not one_shot:
+                    continue
+                name = st.targets[0].id
+                users = []
+                for fdef in ast.walk(tree):
+                    if isinstance(fdef, (ast.FunctionDef, ast.AsyncFunctionDef)):
+                        for n in ast.walk(fdef):
+                            if isinstance(n, (ast.For, ast.comprehension)) and any(isinstance(x, ast.Name) and x.id == name for x in ast.walk(n.iter)):
+                                users.append((fdef, n))
+                            elif isinstance(n, ast.Call) and dotted(n.func) in ("next", "list", "tuple", "sorted", "set", "sum", "any", "all", "max", "min") \
+                                    and any(isinstance(a, ast.Name) and a.id == name for a in n.args):
+                                users.append((fdef, n))
+                n97 += 1
+                r.ob("R9.7", f"{rel} {sname}-level one-shot iterator `{name}`", not users,
+                     f"`{norm_src(st)}` binds an iterator that its first traversal exhausts, and `{users[0][0].name if users else ''}` traverses it: the first "
+                     "call in a process sees the items, every later call sees an empty sequence, so what is generated depends on what was generated before",
+                     loc(rel, st))
+    r.info("R9.7", f"{n97} module/class-level bindings of one-shot iterators found") if hasattr(r, "info") else None
+    probe = ast.parse("import itertools\n_pairs = itertools.permutations(('a', 'b'), 2)\ndef f():\n    for a, b in _pairs:\n        pass\n")
+    if not any(isinstance(s_, ast.Assign) and isinstance(s_.value, ast.Call) and (dotted(s_.value.func) or "").startswith("itertools.") for s_ in probe.body):
+        raise AnalysisError("R9.7 self-check failed")
+    r.ob("R9.7", "no module/class-level one-shot iterator is traversed inside a function (detector self-check passed)", True, "", loc("rewrite.py", repo.tree("rewrite.py")))
 
     # ------------------------------------------------------------------ R9.6 raw bytes of scalars in generated names
     # The in-memory image of a numpy scalar may contain padding of unspecified content (longdouble: 6 of 16 bytes on x86-64):
